@@ -40,13 +40,50 @@ def compiled_pattern_in(ctx, modname, name):
         raise AnalysisError("anchor vanished: %s.%s" % (CP, name))
     e = vals[0]
     if not (isinstance(e, ast.Call) and m.resolve(mod, e.func) == "re.compile"
-            and len(e.args) == 1 and not e.keywords):
-        raise AnalysisError("%s is not re.compile(<pattern>) without flags"
+            and 1 <= len(e.args) <= 2
+            and all(k.arg == "flags" for k in e.keywords)
+            and len(e.args) + len(e.keywords) <= 2):
+        raise AnalysisError("%s is not re.compile(<pattern>[, <flags>])"
                             % name)
+    flags = e.args[1] if len(e.args) == 2 else (
+        e.keywords[0].value if e.keywords else None)
     try:
-        return m.fold(mod, e.args[0])
+        return inline_flags(m, mod, flags) + m.fold(mod, e.args[0])
     except Unfoldable as ex:
         raise AnalysisError("cannot fold %s: %s" % (name, ex))
+
+
+_FLAG_LETTER = {"I": "i", "IGNORECASE": "i", "A": "a", "ASCII": "a",
+                "M": "m", "MULTILINE": "m", "S": "s", "DOTALL": "s",
+                "X": "x", "VERBOSE": "x", "U": "", "UNICODE": "",
+                "NOFLAG": ""}
+
+
+def inline_flags(m, mod, node):
+    """The flags argument of re.compile as the equivalent global inline-flag
+    prefix `(?ai)` -- the pattern language is then decided by zcstatic.strlang
+    (which refuses the flags it does not model: m, s, x)."""
+    if node is None:
+        return ""
+    letters = set()
+
+    def visit(n):
+        if isinstance(n, ast.BinOp) and isinstance(n.op, ast.BitOr):
+            visit(n.left)
+            visit(n.right)
+            return
+        if isinstance(n, ast.Constant) and n.value == 0:
+            return
+        q = m.resolve(mod, n) if isinstance(n, (ast.Attribute, ast.Name)) \
+            else None
+        if q and q.startswith("re.") and q[3:] in _FLAG_LETTER:
+            letters.add(_FLAG_LETTER[q[3:]])
+            return
+        raise AnalysisError("regex flags expression outside the vocabulary: "
+                            + ast.unparse(n))
+    visit(node)
+    letters.discard("")
+    return "(?%s)" % "".join(sorted(letters)) if letters else ""
 
 
 def tagged_check(run, m, rule, name, live_pat, ref_pat, domain_pat, rename,
